@@ -2,7 +2,7 @@
 import framework as fw, vm
 
 def run(prop, tier, seed, wd, t0):
-    jobs = [vm.step_ref(tier, [prop]), vm.debug_op(tier, [prop]), vm.fresh(tier, [prop])]
+    jobs = [vm.step_ref(tier, [prop]), vm.debug_op(tier, [prop]), vm.fresh(tier, [prop]), vm.reset(tier, [prop])]
     def extra(out):
         import ctv
         return ctv.run_family(prop, tier, seed, wd, out, ('h_ctv_exec',), tags=[prop])
